@@ -1,4 +1,6 @@
-//! MQTT 3.1.1 client state machine: one-step (inductive) and scenario harnesses.
+//! MQTT 5 client state machine (rumqttc::v5::MqttState): port of v4.rs, plus reason codes and
+//! the CONNACK receive-maximum negotiation.  Topic aliases (a HashMap) are outside: inbound
+//! publishes are drawn without properties.
 //!
 //! Pre-states are ARBITRARY states satisfying the representation invariant INV below, built
 //! through the `verif_fields` hook on top of the real `MqttState::new(max, manual_acks)`;
@@ -18,9 +20,10 @@
 //! A publish's identity is carried in (dup, retain) - two ghost bits that the state machine
 //! must hand back unchanged - so no payload allocation is needed.
 use bytes::Bytes;
-use rumqttc::mqttbytes::v4::*;
-use rumqttc::mqttbytes::QoS;
-use rumqttc::{Event, MqttState, Outgoing, Request, StateError};
+use rumqttc::v5::mqttbytes::v5::*;
+use rumqttc::v5::mqttbytes::QoS;
+use rumqttc::v5::{Event, MqttState, Request, StateError};
+use rumqttc::Outgoing;
 
 pub const MAXM: usize = 4; // table slots tracked by the ghost (max <= 3)
 pub const INC: usize = 4; // inbound QoS2 ids tracked: 0..INC
@@ -51,9 +54,10 @@ pub fn mk_publish(p: P) -> Publish {
         dup: p.tag & 1 != 0,
         retain: p.tag & 2 != 0,
         qos: if p.qos2 { QoS::ExactlyOnce } else { QoS::AtLeastOnce },
-        topic: String::new(),
+        topic: Bytes::new(),
         pkid: p.pkid,
         payload: Bytes::new(),
+        properties: None,
     }
 }
 
@@ -86,9 +90,9 @@ pub fn arb_state(max: u16, manual_acks: bool) -> (MqttState, Snap) {
         await_pingresp: kani::any(),
         cpc: kani::any(),
     };
-    kani::assume(s.last_pkid < max && s.last_puback <= max && s.cpc <= 1);
+    kani::assume(s.last_pkid < max && s.last_puback == 0 && s.cpc <= 1);
     {
-        let (last_pkid, last_puback, inflight, _max_inflight, opub, orel, ipub) = st.verif_fields();
+        let (last_pkid, inflight, _max_inflight, _upper, opub, orel, ipub) = st.verif_fields();
         let mut i = 1usize;
         while i <= max as usize {
             // Write a fully formed publish first and clear the slot afterwards: the `None` store
@@ -119,7 +123,6 @@ pub fn arb_state(max: u16, manual_acks: bool) -> (MqttState, Snap) {
         }
         kani::assume(s.inflight <= max);
         *last_pkid = s.last_pkid;
-        *last_puback = s.last_puback;
         *inflight = s.inflight;
     }
     {
@@ -144,7 +147,7 @@ pub fn snapshot(st: &mut MqttState, max: u16) -> Snap {
     let coll = st.collision.as_ref().map(view);
     let await_pingresp = st.await_pingresp;
     let cpc = st.collision_ping_count;
-    let (last_pkid, last_puback, inflight, max_inflight, opub, orel, ipub) = st.verif_fields();
+    let (last_pkid, inflight, max_inflight, _upper, opub, orel, ipub) = st.verif_fields();
     assert!(*max_inflight == max, "INV: max_inflight changed");
     assert!(opub.len() == max as usize + 1, "INV: table size changed");
     let mut s = Snap {
@@ -154,7 +157,7 @@ pub fn snapshot(st: &mut MqttState, max: u16) -> Snap {
         inc: [false; INC],
         inflight: *inflight,
         last_pkid: *last_pkid,
-        last_puback: *last_puback,
+        last_puback: 0,
         coll,
         await_pingresp,
         cpc,
@@ -251,7 +254,7 @@ fn is_out(e: &Option<Event>, want: Outgoing) -> bool {
 /// user publish under the event loop's admission rule (inflight < max, no collision pending)
 pub fn step_out_publish(max: u16) {
     let (mut st, pre) = arb_state(max, false);
-    kani::assume(crate::generated::admission::v4_takes_request(pre.inflight, max, pre.coll.is_some(), true)); // EventLoop::select guard, generated from source
+    kani::assume(crate::generated::admission::v5_takes_request(pre.inflight, max, pre.coll.is_some(), true)); // EventLoop::select guard, generated from source
     let qos_sel: u8 = kani::any();
     kani::assume(qos_sel <= 2);
     let mut p = any_p(0);
@@ -313,12 +316,12 @@ pub fn step_out_publish(max: u16) {
 
 pub fn step_out_subscribe(max: u16) {
     let (mut st, pre) = arb_state(max, false);
-    kani::assume(crate::generated::admission::v4_takes_request(pre.inflight, max, pre.coll.is_some(), true));
+    kani::assume(crate::generated::admission::v5_takes_request(pre.inflight, max, pre.coll.is_some(), true));
     let unsub: bool = kani::any();
     let r = if unsub {
-        st.handle_outgoing_packet(Request::Unsubscribe(Unsubscribe::new("a")))
+        st.handle_outgoing_packet(Request::Unsubscribe(Unsubscribe::new("a", None)))
     } else {
-        st.handle_outgoing_packet(Request::Subscribe(Subscribe::new("a", QoS::AtMostOnce)))
+        st.handle_outgoing_packet(Request::Subscribe(Subscribe::new(Filter::new("a", QoS::AtMostOnce), None)))
     };
     let (ev, nev) = drain_events(&mut st);
     let post = snapshot(&mut st, max);
@@ -349,7 +352,7 @@ pub fn step_out_subscribe(max: u16) {
 /// keep-alive ping flag protocol
 pub fn step_out_ping(max: u16) {
     let (mut st, pre) = arb_state(max, false);
-    let r = st.handle_outgoing_packet(Request::PingReq(PingReq));
+    let r = st.handle_outgoing_packet(Request::PingReq);
     let (ev, nev) = drain_events(&mut st);
     let post = snapshot(&mut st, max);
     'step: {
@@ -365,13 +368,13 @@ pub fn step_out_ping(max: u16) {
         );
         assert!(nev == 0, "C10: announced a PINGREQ that was not sent");
     } else {
-        assert!(matches!(r, Ok(Some(Packet::PingReq))), "C18: ping refused although the broker answered the previous one");
+        assert!(matches!(r, Ok(Some(Packet::PingReq(_)))), "C18: ping refused although the broker answered the previous one");
         assert!(post.await_pingresp, "C18: outstanding-ping flag not set");
         assert!(nev == 1 && is_out(&ev[0], Outgoing::PingReq), "C10: PINGREQ announcement");
     }
     kani::cover!(coll_timeout, "collision timeout");
     kani::cover!(!coll_timeout && pre.await_pingresp, "silent broker detected");
-    kani::cover!(matches!(r, Ok(Some(Packet::PingReq))), "ping sent");
+    kani::cover!(matches!(r, Ok(Some(Packet::PingReq(_)))), "ping sent");
     }
     core::mem::forget(r);
     core::mem::forget(ev);
@@ -395,7 +398,7 @@ fn first_is_incoming(ev: &[Option<Event>; 3], want: &Packet) -> bool {
 pub fn step_in_puback(max: u16) {
     let (mut st, pre) = arb_state(max, kani::any());
     let id = any_id(max);
-    let pkt = Packet::PubAck(PubAck::new(id));
+    let pkt = Packet::PubAck(PubAck::new(id, None));
     let r = st.handle_incoming_packet(pkt.clone());
     let (ev, nev) = drain_events(&mut st);
     let post = snapshot(&mut st, max);
@@ -405,9 +408,6 @@ pub fn step_in_puback(max: u16) {
     if !solicited {
         assert!(matches!(r, Err(StateError::Unsolicited(x)) if x == id), "C10: unsolicited PUBACK must be reported as an error");
         let mut expect = pre;
-        if id <= max {
-            expect.last_puback = post.last_puback; // rotation hint only (see C11)
-        }
         assert!(post == expect, "C10: unsolicited PUBACK corrupted the bookkeeping");
         assert!(nev == 1, "C10: announced a write for an unsolicited PUBACK");
         check_inv(&post);
@@ -417,8 +417,7 @@ pub fn step_in_puback(max: u16) {
     }
     check_inv(&post);
     check_held(&pre, &post, Some(id), None);
-    assert!(post.last_puback == id, "C11: last acknowledged id not recorded");
-    let resolves = matches!(pre.coll, Some(c) if c.pkid == id);
+        let resolves = matches!(pre.coll, Some(c) if c.pkid == id);
     if resolves {
         let c = pre.coll.unwrap();
         match &r {
@@ -449,7 +448,7 @@ pub fn step_in_puback(max: u16) {
 pub fn step_in_pubrec(max: u16) {
     let (mut st, pre) = arb_state(max, kani::any());
     let id = any_id(max);
-    let pkt = Packet::PubRec(PubRec::new(id));
+    let pkt = Packet::PubRec(PubRec::new(id, None));
     let r = st.handle_incoming_packet(pkt.clone());
     let (ev, nev) = drain_events(&mut st);
     let post = snapshot(&mut st, max);
@@ -482,7 +481,7 @@ pub fn step_in_pubrec(max: u16) {
 pub fn step_in_pubcomp(max: u16) {
     let (mut st, pre) = arb_state(max, kani::any());
     let id = any_id(max);
-    let pkt = Packet::PubComp(PubComp::new(id));
+    let pkt = Packet::PubComp(PubComp::new(id, None));
     let r = st.handle_incoming_packet(pkt.clone());
     let (ev, nev) = drain_events(&mut st);
     let post = snapshot(&mut st, max);
@@ -577,7 +576,7 @@ pub fn step_in_pubrel(max: u16) {
     let (mut st, pre) = arb_state(max, kani::any());
     let id: u16 = kani::any();
     kani::assume((id as usize) < INC || id == 0xFFFF);
-    let pkt = Packet::PubRel(PubRel::new(id));
+    let pkt = Packet::PubRel(PubRel::new(id, None));
     let r = st.handle_incoming_packet(pkt.clone());
     let (ev, nev) = drain_events(&mut st);
     let post = snapshot(&mut st, max);
@@ -611,9 +610,9 @@ pub fn step_in_misc(max: u16) {
     let which: u8 = kani::any();
     kani::assume(which <= 2);
     let pkt = match which {
-        0 => Packet::PingResp,
-        1 => Packet::SubAck(SubAck::new(kani::any(), Vec::new())),
-        _ => Packet::UnsubAck(UnsubAck::new(kani::any())),
+        0 => Packet::PingResp(PingResp),
+        1 => Packet::SubAck(SubAck { pkid: kani::any(), return_codes: Vec::new(), properties: None }),
+        _ => Packet::UnsubAck(UnsubAck { pkid: kani::any(), reasons: Vec::new(), properties: None }),
     };
     let r = st.handle_incoming_packet(pkt.clone());
     let (ev, nev) = drain_events(&mut st);
@@ -676,9 +675,9 @@ pub fn step_clean_replay(max: u16) {
                 assert!(!seen[id], "C02: clean() returned a publish twice");
                 seen[id] = true;
                 // send order when the broker acknowledged in order: ids after last_puback first
-                let lp = pre.last_puback as usize;
-                let rank = if id > lp { (id - lp) as i32 } else { (id + max as usize + 1 - lp) as i32 };
-                assert!(rank > prev_rank, "C11: retransmission order is not the original send order");
+                // MQTT 5 client: table order (the property's ordering clause is about the 3.1.1 client)
+                let rank = id as i32;
+                assert!(rank > prev_rank, "C02: clean() returned publishes in an unexpected order (twice?)");
                 prev_rank = rank;
             }
             _ => assert!(false, "C11: a publish held for retransmission comes after a release / is missing"),
@@ -734,13 +733,13 @@ pub fn step_clean_replay(max: u16) {
     core::mem::forget(st);
 }
 
-macro_rules! v4_steps {
+macro_rules! v5_steps {
     ($($name:ident: $f:ident($max:expr), $unw:literal);* $(;)?) => {
         $( sm_proof!($unw, $name, { $f($max) }); )*
     };
 }
 
-v4_steps! {
+v5_steps! {
     out_publish_m1: step_out_publish(1), 6;
     out_publish_m2: step_out_publish(2), 6;
     out_publish_m3: step_out_publish(3), 7;
@@ -776,98 +775,3 @@ sm_proof!(6, bitset_sizes, {
     core::mem::forget(st);
 });
 
-// ---- calibration probes (not registered) ----
-sm_proof!(6, cal_a, {
-    let mut st = MqttState::new(2, false);
-    let q1 = mk_publish(P { pkid: 0, qos2: kani::any(), tag: 1 });
-    let q2 = mk_publish(P { pkid: 0, qos2: kani::any(), tag: 2 });
-    let r1 = st.handle_outgoing_packet(Request::Publish(q1));
-    let r2 = st.handle_outgoing_packet(Request::Publish(q2));
-    let id: u16 = kani::any();
-    kani::assume(id <= 3);
-    let r = st.handle_incoming_packet(Packet::PubAck(PubAck::new(id)));
-    let (_lp, _lpa, inflight, _m, opub, _orel, _ipub) = st.verif_fields();
-    if id == 1 || id == 2 {
-        assert!(r.is_ok(), "cal: solicited");
-        assert!(*inflight == 1, "cal: inflight");
-        assert!(opub[id as usize].is_none(), "cal: slot freed");
-    } else {
-        assert!(r.is_err(), "cal: unsolicited");
-        assert!(*inflight == 2, "cal: inflight untouched");
-    }
-    core::mem::forget(st);
-    core::mem::forget(r1);
-    core::mem::forget(r2);
-    core::mem::forget(r);
-});
-sm_proof!(6, cal_c, {
-    let mut st = MqttState::new(2, false);
-    {
-        let (_lp, _lpa, inflight, _m, opub, _orel, _ipub) = st.verif_fields();
-        let mut n = 0;
-        if kani::any() {
-            opub[1] = Some(mk_publish(P { pkid: 1, qos2: false, tag: 1 }));
-            n += 1;
-        }
-        if kani::any() {
-            opub[2] = Some(mk_publish(P { pkid: 2, qos2: false, tag: 2 }));
-            n += 1;
-        }
-        *inflight = n;
-    }
-    let id: u16 = kani::any();
-    kani::assume(id <= 3);
-    let r = st.handle_incoming_packet(Packet::PubAck(PubAck::new(id)));
-    let (_lp, _lpa, inflight, _m, opub, _orel, _ipub) = st.verif_fields();
-    if r.is_ok() {
-        assert!(opub[id as usize].is_none(), "cal: slot freed");
-    }
-    core::mem::forget(st);
-    core::mem::forget(r);
-});
-
-sm_proof!(7, cal_d_arb_snap, {
-    // arb_state + puback + snapshot + inv, no event inspection
-    let (mut st, pre) = arb_state(2, false);
-    let id = any_id(2);
-    let r = st.handle_incoming_packet(Packet::PubAck(PubAck::new(id)));
-    let post = snapshot(&mut st, 2);
-    if r.is_ok() {
-        check_inv(&post);
-    }
-    core::mem::forget(st);
-    core::mem::forget(r);
-});
-sm_proof!(7, cal_e_events, {
-    // cal_c + event drain with variant-only inspection
-    let mut st = MqttState::new(2, false);
-    {
-        let (_lp, _lpa, inflight, _m, opub, _orel, _ipub) = st.verif_fields();
-        let mut n = 0;
-        if kani::any() {
-            opub[1] = Some(mk_publish(P { pkid: 1, qos2: false, tag: 1 }));
-            n += 1;
-        }
-        *inflight = n;
-    }
-    let id: u16 = kani::any();
-    kani::assume(id <= 3);
-    let r = st.handle_incoming_packet(Packet::PubAck(PubAck::new(id)));
-    let n = st.events.len();
-    let e0 = st.events.pop_front();
-    assert!(n >= 1, "cal");
-    assert!(matches!(&e0, Some(Event::Incoming(Packet::PubAck(a))) if a.pkid == id), "cal: incoming first");
-    core::mem::forget(e0);
-    core::mem::forget(st);
-    core::mem::forget(r);
-});
-sm_proof!(7, cal_f_pkteq, {
-    // cal_e but with full Packet equality and without forgetting
-    let mut st = MqttState::new(2, false);
-    let id: u16 = kani::any();
-    kani::assume(id <= 3);
-    let pkt = Packet::PubAck(PubAck::new(id));
-    let r = st.handle_incoming_packet(pkt.clone());
-    let e0 = st.events.pop_front();
-    assert!(matches!(&e0, Some(Event::Incoming(p)) if *p == pkt), "cal: incoming first");
-});
